@@ -17,6 +17,8 @@ modes; `List Event` / `List AEvent` are arbitrary histories; nothing is bounded.
 -/
 import CaddyModel.C14.Lemmas
 import CaddyModel.C14.Witness
+import CaddyModel.Gen.CAWrites
+import CaddyModel.Gen.Autosave
 
 namespace CaddyModel.C14
 
@@ -381,5 +383,24 @@ example : acceptedIn codeStyle
 
 example : ∀ e ∈ [AEvent.load (exLoad [1] true true) none, .restart, .load (exLoad [1] true true) none], e.clean := by
   decide
+
+/-! ### regenerated ties: the ORDER the theorems are about is the order the source has now
+
+`tools/extract` reads these facts out of modules/caddypki/ca.go and caddy.go on every run
+(`Gen/CAWrites.lean`, `Gen/Autosave.lean`). The theorems above are proved for the model parameters
+`.keyFirst` (CA) and `.tmpRename` (autosave); the two statements below say, in the source's own
+identifiers, that this is what the code does: the key is stored before the certificate, the
+certificate is the marker whose absence triggers generation, and autosave writes a temporary file
+and renames it, after the old configuration was stopped. A reordering in the source breaks them. -/
+
+theorem ca_write_order_matches_source :
+    Gen.genRootStores = ["storageKeyRootKey", "storageKeyRootCert"] ∧
+    Gen.rootMarker = "storageKeyRootCert" ∧
+    Gen.genIntermediateStores = ["storageKeyIntermediateKey", "storageKeyIntermediateCert"] ∧
+    Gen.intermediateMarker = "storageKeyIntermediateCert" := by decide
+
+theorem autosave_program_matches_source :
+    Gen.autosaveOps = ["MkdirAll(dir)", "WriteFile(tmpPath,cfgJSON)", "Rename(tmpPath,ConfigAutosavePath)"] ∧
+    Gen.autosaveAfterSwap = true := by decide
 
 end CaddyModel.C14
